@@ -114,8 +114,10 @@ class Task(NamedUIDObject):
             resource = resource.get_select_workers()
 
         if isinstance(resource, SelectWorkers):
-            # loop over each resource
-            for worker in resource.list_of_workers:
+
+            def maybe_busy(worker, selected_variable):
+                """the worker is busy with the task if selected, otherwise its busy
+                interval is moved to the past"""
                 resource_maybe_busy_start = z3.Int(
                     f"{worker.name}_maybe_busy_{self.name}_start"
                 )
@@ -127,7 +129,6 @@ class Task(NamedUIDObject):
                     self, (resource_maybe_busy_start, resource_maybe_busy_end)
                 )
                 # add assertions. z3.If worker is selected then sync the resource with the task
-                selected_variable = resource._selection_dict[worker]
                 schedule_as_usual = z3.And(
                     resource_maybe_busy_start == self._start,
                     resource_maybe_busy_end == self._end,
@@ -151,6 +152,25 @@ class Task(NamedUIDObject):
                 self.append_z3_assertion(assertion)
                 # finally, add each worker to the "required" resource list
                 self._required_resources.append(worker)
+
+            # loop over each resource
+            for worker in resource.list_of_workers:
+                selected_variable = resource._selection_dict[worker]
+                if isinstance(worker, CumulativeWorker):
+                    # a cumulative worker is held through its unit workers: at least
+                    # one of them if it is selected, none of them otherwise
+                    unit_selected_variables = []
+                    for unit_worker in worker._cumulative_workers:
+                        unit_selected_variable = z3.Bool(
+                            f"Selected_{unit_worker.name}_{resource._uid}"
+                        )
+                        maybe_busy(unit_worker, unit_selected_variable)
+                        unit_selected_variables.append(unit_selected_variable)
+                    self.append_z3_assertion(
+                        selected_variable == z3.Or(unit_selected_variables)
+                    )
+                else:
+                    maybe_busy(worker, selected_variable)
             # also, don't forget to add the AlternativeWorker assertion
             self.append_z3_assertion(resource._selection_assertion)
         elif isinstance(resource, Worker):
